@@ -18,7 +18,7 @@ import (
 // polling again); 4 polls again and exits while idle.
 // extension fault points: 0 exits before registering; 1 exits after registering; 2 exits after
 // its first event; 3 reports init/error and exits; 4 reports exit/error (after its first event)
-// and exits.
+// and exits; 5 exits while idle between two invocations.
 
 func verifC06Fault(nExt int, who int) {
 	var subs []string
@@ -27,7 +27,11 @@ func verifC06Fault(nExt int, who int) {
 	}
 	f := newVerifFull(nExt, subs, nil, 3000)
 	w := f.w
-	point := verifChoice(5, "fault point")
+	nPoints := 5
+	if who == 1 {
+		nPoints = 6 // 5: the extension exits while idle between two invocations
+	}
+	point := verifChoice(nPoints, "fault point")
 	kind := verifChoice(3, "exit kind (0, non-zero, signal)")
 	status, signo := int32(0), int32(0)
 	switch kind {
@@ -166,6 +170,20 @@ func verifC06Fault(nExt int, who int) {
 					api.ExitError(id, "Extension.Bye")
 				}
 				die()
+			case 5:
+				s2, _ := api.Next(id)
+				if api.Dead() || s2 != 200 {
+					return
+				}
+				// back in next, idle; exits when the first invocation is over
+				verifSpawnEnv(func() {
+					verifWaitUntil(func() bool { return w.Count("caller", "invoke-end", "nil") > 0 })
+					if !api.Dead() {
+						verifReach("extension-idle-exit")
+						die()
+					}
+				})
+				api.Next(id)
 			}
 		})
 	}
